@@ -252,6 +252,13 @@ def unit_circuit_fields(status, nhops):
         path.assume(z3.InRe(idtxt, z3.Plus(z3.Range('0', '9'))))
         path.assume(z3.StrToInt(idtxt) == cid)
         H[('f', o, 'path')] = ex.new_list(path, [VOpaque('router', 50)])
+        # one stream is attached to this circuit (both directions of the relation)
+        import txtorcon.stream as strm
+        s0 = ex.new_inst(path, strm.Stream)
+        H[('f', s0.oid, 'circuit')] = obj
+        H[('f', s0.oid, 'id')] = VInt(z3.Int('stream_id'))
+        streams0 = ex.new_list(path, [s0])
+        H[('f', o, 'streams')] = streams0
         # the previous report carried a keyword this one does not
         H[('f', o, 'flags')] = ex.new_dict(path, [(VStr('HS_STATE'), VStr(z3.String('old_hs_state')))])
         hops = [z3.String('hop%d' % i) for i in range(nhops)]
@@ -282,6 +289,12 @@ def unit_circuit_fields(status, nhops):
             ctx.oblige('post.flags_are_exactly_the_event_keywords', p,
                        zand(B(okf), fp[0][1].t == purpose, fp[1][1].t == bf) if okf else B(False),
                        clause='each circuit with its latest flags (a keyword Tor no longer reports is gone)')
+            st1 = g('streams')
+            items1 = ex.list_items(p, st1) if isinstance(st1, VList) else None
+            ctx.oblige('frame.a_circuit_event_leaves_the_attachment_relation_alone_in_both_directions', p,
+                       B(items1 is not None and len(items1) == 1 and items1[0] is s0 and p.heap.get(('f', s0.oid, 'circuit')) is obj),
+                       clause='attachment is consistent in both directions and matches what Tor reported (a stream stays listed under its '
+                              'circuit, and names it, until a stream event says otherwise - even if that circuit closes first)')
             routers = ctx.models.glog(p, 'routers')
             newpath = _items(ex, p, g('path'))
             if status == 'LAUNCHED':
